@@ -13,13 +13,27 @@ Local Open Scope Z_scope.
     [_determine_suitable_iri_pattern]; separators, the minimum length, the
     [_BARE_SCHEME] pattern and the sentinel come from [Gen/Consts.v]).
 
-    For every non-empty list of instance ids none of which starts with ['%']
-    ([well_formed_ids] = [C17_dom]: every list of IRIs and blank-node labels):
-    the printed stem is admissible -- a prefix of every instance id, ends with
-    ':', '/' or '#', at least three characters, not a bare scheme -- and no
-    admissible stem is longer; nothing printed means no admissible stem
-    exists.  The proofs need [c_min_iri_rule_bare = true], i.e. the source
-    with the [_BARE_SCHEME.fullmatch] test; on the former length test
+    An instance id is an IRI or the label of a blank node ([_:label],
+    [bnode_id]); a blank node has no IRI.  A stem is admissible for a class
+    when every instance has an IRI (none is a blank node) and the stem has the
+    shape of a stem ([stem_shaped]): a prefix of every instance id, ends with
+    ':', '/' or '#', at least three characters, not a bare scheme.
+
+    Domain.  [well_formed_ids]: a non-empty list of ids none of which starts
+    with ['%'] (every list of IRIs and blank-node labels).  [C17_dom] depends on
+    the source tree ([C17_dom_unfold]):
+    - with the first test of [_determine_suitable_iri_pattern] (a common prefix
+      that starts with "_:" gives no stem; [c_min_iri_skips_bnode_prefix = true],
+      the repair of finding C09-F3) it is [well_formed_ids]: classes with
+      blank-node instances, and classes of blank nodes only, included -- nothing
+      is printed for them ([C17_stem_bnode_class_none]);
+    - without it, the lists in which some instance is not a blank node (for a
+      class of blank nodes only the code prints a "stem" cut out of their
+      labels: [C17_bnode_label_stem_refuted]).
+    On the domain the printed stem is admissible and no admissible stem is
+    longer; nothing printed means no admissible stem exists.  The proofs need
+    [c_min_iri_rule_bare = true], i.e. the source with the
+    [_BARE_SCHEME.fullmatch] test; on the former length test
     ([startswith("http") and len < 9]) they do not check. *)
 Theorem C17_stem_longest : forall iris s,
   C17_dom iris -> stem iris = Some s -> is_longest s iris.
@@ -35,6 +49,55 @@ Print Assumptions C17_stem_none.
 Theorem C17_domb_sound : forall iris, C17_domb iris = true -> C17_dom iris.
 Proof. exact MinIriProofs.C17_domb_sound. Qed.
 Print Assumptions C17_domb_sound.
+
+(** the domain, read off the source tree the constants were generated from *)
+Theorem C17_dom_unfold : forall iris,
+  (c_min_iri_skips_bnode_prefix = true -> (C17_dom iris <-> well_formed_ids iris)) /\
+  (c_min_iri_skips_bnode_prefix = false ->
+   (C17_dom iris <-> well_formed_ids iris /\ exists i, In i iris /\ ~ bnode_id i)).
+Proof. intros iris. split; [apply C17_dom_guarded | apply C17_dom_unguarded]. Qed.
+Print Assumptions C17_dom_unfold.
+
+(** on the domain a class with a blank-node instance gets no stem; with the
+    first test that is every class with a blank-node instance, the classes of
+    blank nodes only included *)
+Theorem C17_stem_bnode_class_none : forall iris,
+  C17_dom iris -> (exists i, In i iris /\ bnode_id i) -> stem iris = None.
+Proof. exact stem_bnode_none. Qed.
+Print Assumptions C17_stem_bnode_class_none.
+
+Theorem C17_stem_bnode_class_none_repaired : forall iris,
+  c_min_iri_skips_bnode_prefix = true -> well_formed_ids iris ->
+  (exists i, In i iris /\ bnode_id i) -> stem iris = None.
+Proof. intros iris F W. apply stem_bnode_none. now apply C17_dom_guarded. Qed.
+Print Assumptions C17_stem_bnode_class_none_repaired.
+
+(** what [_determine_suitable_iri_pattern] guarantees with the first test: no answer for a
+    common prefix that starts with "_:", the answer of the rest of the function otherwise *)
+Theorem C17_determine_repaired : forall l,
+  c_min_iri_skips_bnode_prefix = true ->
+  (bnode_id l -> determine l = None) /\ (~ bnode_id l -> determine l = determine_cut l).
+Proof. intros l F. exact (determine_guarded l F). Qed.
+Print Assumptions C17_determine_repaired.
+
+(** ** the same two statements about the SHAPE of a stem only, for every
+    well-formed list and either text of the function (the statements this file
+    made before blank nodes were told apart; nothing of them is lost): what is
+    printed has the shape of a stem and nothing of that shape is longer;
+    nothing printed means nothing has that shape -- or, only with the first
+    test, that every instance is a blank node. *)
+Theorem C17_stem_shaped_longest : forall iris s,
+  well_formed_ids iris -> stem iris = Some s ->
+  stem_shaped s iris /\ forall s', stem_shaped s' iris -> (List.length s' <= List.length s)%nat.
+Proof. exact stem_some_shaped. Qed.
+Print Assumptions C17_stem_shaped_longest.
+
+Theorem C17_stem_shaped_none : forall iris,
+  well_formed_ids iris -> stem iris = None ->
+  forall s, stem_shaped s iris ->
+    c_min_iri_skips_bnode_prefix = true /\ forall i, In i iris -> bnode_id i.
+Proof. exact stem_none_shaped. Qed.
+Print Assumptions C17_stem_shaped_none.
 
 (** Moreover the scheme clause never makes the code fall back to a shorter
     stem: what is printed is the longest separator-terminated common prefix. *)
@@ -119,6 +182,55 @@ Example C17_fixed_regressions :
   stem [Str "urn:isbn:1"; Str "urn:uuid:2"] = None /\
   stem [Str "http:a/x"; Str "http:a/y"] = Some (Str "http:a/").
 Proof. repeat split; vm_compute; reflexivity. Qed.
+
+(** ** classes with blank-node instances.  A mixed class never gets a stem
+    (either text: the common prefix of an IRI and a label is empty); a class of
+    blank nodes only whose labels share a prefix that reaches a ':' gets none
+    with the first test (regression of finding C09-F3) and a piece of the labels
+    without it. *)
+Definition c17_bn_ids : list str := [Str "_:genid:b0"; Str "_:genid:b1"].
+
+Example C17_mixed_class_no_stem :
+  C17_dom [Str "http://ex.org/a/i1"; Str "_:genid:b0"; Str "http://ex.org/a/i2"] /\
+  stem [Str "http://ex.org/a/i1"; Str "_:genid:b0"; Str "http://ex.org/a/i2"] = None.
+Proof. split; [apply C17_domb_sound; vm_compute; reflexivity | vm_compute; reflexivity]. Qed.
+
+Example C17_bnode_label_stem_fixed : c_min_iri_skips_bnode_prefix = true ->
+  C17_dom c17_bn_ids /\ stem c17_bn_ids = None /\
+  stem_shaped (Str "_:genid:") c17_bn_ids /\
+  determine (Str "_:genid:b") = None /\ determine_cut (Str "_:genid:b") = Some (Str "_:genid:").
+Proof.
+  intros F. first [ vm_compute in F; discriminate F
+                  | split; [apply C17_domb_sound; vm_compute; reflexivity|];
+                    split; [vm_compute; reflexivity|];
+                    split; [|split; vm_compute; reflexivity];
+                    split; [intros i [<- | [<- | []]]; eexists; reflexivity|];
+                    split; [exists (Str "_:genid"), ":"%char; split; [reflexivity | now left]|];
+                    split; [vm_compute; discriminate|];
+                    intros B; apply bare_schemeb_spec in B; vm_compute in B; discriminate B ].
+Qed.
+
+(** without the first test (finding C09-F3; Props/C09.v: [C09_rename_stem_refuted]): the
+    "stem" of a class of blank nodes is a piece of their labels -- not admissible, and
+    outside [C17_dom] *)
+Lemma C17_bnode_label_stem_refuted : c_min_iri_skips_bnode_prefix = false ->
+  well_formed_ids c17_bn_ids /\ stem c17_bn_ids = Some (Str "_:genid:") /\
+  ~ admissible (Str "_:genid:") c17_bn_ids /\ ~ C17_dom c17_bn_ids.
+Proof.
+  intros F. first [ vm_compute in F; discriminate F
+                  | split; [apply well_formed_idsb_sound; vm_compute; reflexivity|];
+                    split; [vm_compute; reflexivity|];
+                    split; [intros [_ NB]; apply (NB (Str "_:genid:b0")); [now left | eexists; reflexivity]|];
+                    intros D; apply (C17_dom_unguarded _ F) in D; destruct D as [_ (i & Hi & NB)];
+                    apply NB; destruct Hi as [<- | [<- | []]]; eexists; reflexivity ].
+Qed.
+
+(** the flag is one of the two: exactly one of the two statements above speaks about the
+    source tree the constants were generated from *)
+Example C17_bnode_label_stem_status :
+  (c_min_iri_skips_bnode_prefix = false /\ stem c17_bn_ids = Some (Str "_:genid:")) \/
+  (c_min_iri_skips_bnode_prefix = true /\ stem c17_bn_ids = None).
+Proof. first [ left; split; vm_compute; reflexivity | right; split; vm_compute; reflexivity ]. Qed.
 
 (** ** why the domain excludes ids that start with ['%'] (such a string is no
     IRI and no blank-node label): sentinel aliasing -- a running prefix equal
@@ -234,7 +346,9 @@ Proof. exact printed_stem_is_class_stem. Qed.
 Print Assumptions C17_printed_stem_is_class_stem.
 
 (** composed with [C17_stem_longest] / [C17_stem_none]: on [C17_dom] the header carries the
-    longest admissible stem of the class's instances, and carries none only if none exists *)
+    longest admissible stem of the class's instances, and carries none only if none exists
+    (with the first test of [_determine_suitable_iri_pattern] the domain holds the classes
+    with blank-node instances: their header carries nothing, [C17_printed_stem_bnode_class]) *)
 Theorem C17_printed_stem_longest : forall c mode g ins d sh,
   run_decor_data c true mode g = Some (ins, d) ->
   (exists i, is_instance ins (sh_class sh) i) ->
@@ -250,6 +364,18 @@ Proof.
   - right. split; [reflexivity | exact (stem_none _ Hd E)].
 Qed.
 Print Assumptions C17_printed_stem_longest.
+
+Theorem C17_printed_stem_bnode_class : forall c mode g ins d sh,
+  run_decor_data c true mode g = Some (ins, d) ->
+  C17_dom (instances_of ins (sh_class sh)) ->
+  (exists i, is_instance ins (sh_class sh) i /\ bnode_id i) ->
+  min_iri_text {| d_dmi := true; d_mode := mode; d_inverse := r_inverse c |} d sh = inl [].
+Proof.
+  intros c mode g ins d sh H Hd (i & Hi & B).
+  rewrite (printed_stem_is_class_stem _ _ _ _ _ _ H (ex_intro _ i Hi)).
+  rewrite (stem_bnode_none _ Hd); [reflexivity|]. exists i. split; [now apply in_instances_of | exact B].
+Qed.
+Print Assumptions C17_printed_stem_bnode_class.
 
 (** the example printed after the closing brace is an instance of the shape's class
     (rendered as a prefixed name or between angle brackets).  Second case: only when
